@@ -283,6 +283,8 @@ def render_source(sc):
             out.append(f"    {evname(e)} = " + " | ".join(f"tr{j}" for j, t in enumerate(sc["trans"]) if e in t["ev"]))
         out.append("    del " + ", ".join(f"tr{j}" for j in range(len(sc["trans"]))))
     out += methods(0, sc["provs"][0])
+    if sc.get("falsy_machine"):
+        out.append("    def __len__(self): return 0      # a machine that evaluates as false")
     out.append("")
     out.append("class Mdl:")
     out.append("    def __init__(self): self.state = None")
@@ -326,6 +328,37 @@ def _clear_signature_cache():
         pass
 
 
+class _Other:
+    """an unrelated object the machine's triggers get bound onto (bind_events_to)"""
+
+
+def call_style(sm, style, name, tag, ns):
+    """the same event through the other documented entry points"""
+    if style == "attr":                       # sm.go(...)
+        return getattr(sm, name)(tag=tag)
+    if style == "events":                     # the matching item of sm.events
+        for ev in sm.events:
+            if str(ev) == name:
+                return ev(tag=tag)
+        return sm.send(name, tag=tag)
+    if style == "allowed":                    # the matching item of sm.allowed_events, when listed
+        try:
+            items = list(sm.allowed_events)
+        except Exception:  # noqa: BLE001 - no current state yet (async machine before activation)
+            items = []
+        for ev in items:
+            if str(ev) == name:
+                return ev(tag=tag)
+        return sm.send(name, tag=tag)
+    if style == "bound":                      # a trigger bound onto another object
+        other = _Other()
+        sm.bind_events_to(other)
+        if hasattr(other, name):
+            return getattr(other, name)(tag=tag)
+        return sm.send(name, tag=tag)
+    raise ValueError(style)
+
+
 def run_impl(sc):
     """Execute the scenario on the real library; returns the list of observations (one per op)."""
     global RUN
@@ -351,6 +384,8 @@ def run_impl(sc):
                     r = None
                 elif op[0] == "send":
                     r = sm.send(evname(op[1]), tag=op[2])
+                elif op[0] == "call":
+                    r = call_style(sm, op[1], evname(op[2]), op[3], ns)
                 elif op[0] == "activate":
                     r = sm.activate_initial_state()
                 elif op[0] == "write":
@@ -473,6 +508,7 @@ def cq_scenario(sc):
     ops = []
     for op in sc["ops"]:
         ops.append({"send": lambda o: f"OSend {o[1]} {o[2]}", "activate": lambda o: "OActivate",
+                    "call": lambda o: f"OSend {o[2]} {o[3]}",
                     "construct": lambda o: "OConstruct", "write": lambda o: f"OWrite {o[1]}"}[op[0]](op))
     fuel = 6 + total_sends(sc) + len(sc["ops"])
     return (f"(mkSc {md} [{'; '.join(tbl)}] {cq_opt(sc.get('field0'))} [{'; '.join(ops)}] {fuel})")
